@@ -530,8 +530,11 @@ def translate(repo):
         props = {n.name: _u(n.body[-1]) for n in nc.body if isinstance(n, ast.FunctionDef) and n.name in ("instance", "owner")}
         getter = getter and props == {"instance": "return self._class_obj", "owner": "return self._class_obj.__class__"}
         cf = func_shape(find_func(tree, "class_factory"))
+        # the class is looked up by its module-qualified name: with getattr on the module (pinned tree) or in the module's own
+        # namespace only (repaired tree, d03f463: no module-level __getattr__ hook is run for a peer-chosen name)
         by_name = all(t in cf for t in ("_builtin_class = _normalized_builtin_types.get(name_pack)", "_module = sys.modules.get(name_pack[:cursor])",
-                                        "_class = getattr(_module, _class_name, None)", "ns['__class__'] = class_descriptor"))
+                                        "ns['__class__'] = class_descriptor")) \
+            and any(t in cf for t in ("_class = getattr(_module, _class_name, None)", "_class = getattr(_module, '__dict__', {}).get(_class_name)"))
         return [typed("instancecheck_asks_owner", "bool", coq_bool(asks)),
                 typed("instancecheck_route", "bool -> bool -> bool -> bool -> bool -> icroute",
                       "fun resolved other_is_proxy self_is_class same_class_id other_is_class : bool => "
